@@ -144,8 +144,11 @@ impl IntoType for Constructor {
 
 impl Dependencies for Constructor {
     fn dependencies(&self) -> Vec<crate::ast::Dependency> {
-        let x = self.body.net_dependencies();
-        x
+        self.body
+            .net_dependencies()
+            .into_iter()
+            .map(crate::ast::Dependency::cross_function)
+            .collect()
     }
 
     fn supplies(&self) -> Vec<crate::ast::Dependency> {
